@@ -212,6 +212,7 @@ func (c *Checker) afterCall(x *callCtx) {
 		c.checkCharge(x) // C16
 		x.emits = emittedMessages(c.w, x.call, x.res)
 		c.checkEmittedData(x) // C10 (emitted data parses)
+		c.checkAttachedCallHandedOver(x)
 	}
 	c.bookkeepMessages(x) // C01 (acceptance / refund)
 	// C10: the hand-over message the library itself emitted continues the operation on the next holder's shard: nothing in
@@ -336,6 +337,29 @@ func (c *Checker) checkEmittedData(x *callCtx) {
 			}
 		}
 	}
+}
+
+// checkAttachedCallHandedOver (C10): when the transfer credits a contract that lives on the executing shard and the input
+// carries an attached call - what the ESDT transfer parser reports as CallFunction / CallArgs - the output hands that call
+// to the contract (an output transfer to it with data), whatever the call type and on whichever half of the transfer.
+func (c *Checker) checkAttachedCallHandedOver(x *callCtx) {
+	if !IsTransferFn(x.call.Fn) {
+		return
+	}
+	sh := shapeOf(c.w, x.call)
+	if !sh.ok || !sh.attached || !IsContract(sh.dest) || !c.w.Present(x.call.Shard, sh.dest) {
+		return
+	}
+	for _, oa := range sortedOutputAccounts(x.res.Out) {
+		if !bytes.Equal(oa.Address, sh.dest) {
+			continue
+		}
+		if len(oa.OutputTransfers) > 0 { // an empty function name is handed over as empty data
+			return
+		}
+	}
+	c.report(x, "C10", "the transfer credits the contract %x on its own shard and carries the attached call (%q, %x) - which the transfer parser reports - but no output transfer hands the call to the contract (call type %d)",
+		sh.dest, sh.attFn, sh.attArgs, x.call.CallType)
 }
 
 func sameArgs(a, b [][]byte) bool {
@@ -679,6 +703,11 @@ func (c *Checker) checkFootprint(x *callCtx, diffs []diffSlot) {
 		okAcct := bytes.Equal(d.addr, call.Caller) || bytes.Equal(d.addr, call.Rcv) || bytes.Equal(d.addr, SystemAccount) || argSet[string(d.addr)]
 		if !okAcct {
 			c.report(x, "C05", "account %x outside the footprint changed (slot %s)", d.addr, d.slot)
+			continue
+		}
+		// an execution changes accounts of ITS shard only (the system account exists on every shard)
+		if !bytes.Equal(d.addr, SystemAccount) && !c.w.Present(call.Shard, d.addr) {
+			c.report(x, "C05", "account %x does not live on shard %d, yet the call executed there changed it (slot %s)", d.addr, call.Shard, d.slot)
 			continue
 		}
 		if !d.storage {
